@@ -591,6 +591,12 @@ class C17(PropBase):
                             wr, gr = want[0][2:].split(","), got[0][2:].split(",")
                             wc, gc = set(x for x in want[2][2:].split(",") if x), set(x for x in got[2][2:].split(",") if x)
                             same = (got[1] == want[1] and len(wr) == len(gr) and all(a == b or a == "N" for a, b in zip(gr, wr)) and gc <= wc)
+                            if len(g) >= 6 and g[5].startswith("D:"):
+                                # second sandbox: locate_symbols ran first on an empty cache, so fetch_symbol_file did the caching of
+                                # the symbol file — the files under the cache must be the same predicted set
+                                gd = set(x for x in g[5][2:].split(",") if x)
+                                got.append("D:" + ",".join(sorted(gd)))
+                                same = same and gd <= wc
                             if wc:
                                 n_expect[prof] = n_expect.get(prof, 0) + 1
                                 if not gc:
@@ -661,6 +667,17 @@ class C17(PropBase):
                     continue
                 n_req += sum(len(t) for t in calls)
                 bad = None
+                if base_case:
+                    # a plainly spelled server URL (`http://host/root`, `.../a/b/c/`): the configured path is the root the property
+                    # speaks of — every request must stay below it (HttpSymbolSupplier::new appends the missing '/')
+                    suffix = unhx(c.split()[1]).decode("utf-8", "replace")
+                    import re as _re
+                    if _re.match(r"^[a-z]+(/[a-z]+)*/?$", suffix):
+                        want_prefix = "/" + suffix.rstrip("/") + "/"
+                        for t in [t for call in calls for t in call]:
+                            if not t.startswith(want_prefix):
+                                bad = "url probe: with the server URL http://<host>/%s a lookup path was requested as %r, outside the server root %s" % (suffix, t, want_prefix)
+                                break
                 if not base_case:
                     for t in [t for call in calls for t in call]:
                         path = t.split("?", 1)[0]
